@@ -144,8 +144,6 @@ impl SchedulerContext {
 
     #[inline]
     pub(super) fn logical_timestamp(&self) -> usize {
-        #[cfg(grevm_verif)]
-        crate::verif::p1("clock_peek", self.logical_clock.load(Ordering::Acquire) as i64);
         self.logical_clock.fetch_add(1, Ordering::AcqRel)
     }
 
